@@ -31,9 +31,9 @@ LEVEL_NOTE = ("Trusted: Coq kernel, translator constants, Go harness + Python gl
               "hash.Of (the harness reports content-hash = address), errgroup goroutines of getMany (model: lookup phase + the argument that batch buffers cover "
               "their members), os.File.ReadAt short-read semantics.")
 THEOREMS = ["no_panic_open_table", "no_panic_table", "no_panic_journal_scan", "no_panic_manifest", "oracle_model", "no_misread_get",
-            "no_misread_refuted", "iterate_mislabel_refuted", "psearch_total", "no_panic_archive_has", "archive_open_panic_only_alloc",
-            "no_panic_archive_refuted", "archive_misread_refuted", "archive_iterate_mislabel_refuted"]
-REFUTED = ["no_misread_refuted", "iterate_mislabel_refuted", "no_panic_archive_refuted", "archive_misread_refuted", "archive_iterate_mislabel_refuted"]
+            "no_misread_refuted", "iterate_mislabel_refuted", "psearch_total", "no_panic_archive_has", "no_panic_archive_open",
+            "no_panic_archive_get", "no_panic_archive_iterate", "archive_misread_refuted", "archive_iterate_mislabel_refuted"]
+REFUTED = ["no_misread_refuted", "iterate_mislabel_refuted", "archive_misread_refuted", "archive_iterate_mislabel_refuted"]
 RULE = ("files written by the real writers (table files of 1-6 chunks, journals of 2-7 records, v5/v4 manifests of 0-3 specs) with: every single-byte "
         "corruption of index+footer (thorough: 3 values per position; quick: one rotating value), sampled data-area flips, every/sampled truncation, "
         "field-targeted edits (counts, lengths, ordinals, prefixes, magic), record swaps with valid checksums, appended tails, manifest count disagreement; "
@@ -46,16 +46,15 @@ ASSUMPTIONS = ["ResolveShortHash is given at most 32 base32 characters (hash.Par
 REQUIRED_TAGS = ["table", "journal", "manifest", "t-pristine", "t-open-err", "t-get-err", "t-has-err", "t-iter-err", "t-gm-err", "t-iter-mislabel",
                  "t-absent", "t-misread", "j-ok", "j-err", "j-dataloss", "j-truncated", "m-ok", "m-err",
                  "reg:length-lt-checksum-size", "reg:ordinal-ge-count", "reg:length-gt-iterate-buffer", "reg:journal-short-field", "reg:manifest-bad-root", "reg:resolve-short-hash",
-                 "archive", "a-open-ok", "a-open-err", "a-get-ok", "a-get-err", "a-get-panic", "a-misread", "a-iter-ok", "a-iter-panic", "a-iter-bad", "a-ref-swap-clean", "t-extras",
+                 "archive", "a-open-ok", "a-open-err", "a-get-ok", "a-get-err", "a-misread", "a-iter-ok", "a-iter-err", "a-iter-bad",
+                 "reg:archive-chunk-ref", "reg:archive-span-length", "reg:archive-footer-counts", "a-ref-swap-clean", "t-extras",
                  "store", "s-table-manifest", "s-table-table", "s-journal-journal", "s-journal-idx", "s-archive-archive", "s-open-ok", "s-open-err", "s-op-err", "s-all-ok",
                  "resolve", "r-short-ok", "r-long-ok", "r-short-err", "r-long-err", "r-found", "r-none", "r-last-tuple-long"]
 
 # open known findings (reads never compare the content hash with the address).  The repaired findings
 # (table-index:length-lt-checksum-size, table-index:ordinal-ge-count, table-index:length-gt-iterate-buffer,
 #  journal-record:short-field-valid-crc, manifest:root-hash-malformed) are NOT matched any more: a panic is a violation.
-KEY_A_REF = "archive-index:chunk-ref-unchecked"
-KEY_A_LEN = "archive-index:span-length-unchecked"
-KEY_A_CNT = "archive-footer:counts-unchecked"
+# repaired in e8df418 and no longer matched: archive-index:chunk-ref-unchecked, archive-index:span-length-unchecked, archive-footer:counts-unchecked
 KEY_A_SWAP = "archive-index:chunk-ref-redirected-valid-crc"
 KEY_A_ITER = "archive-index:iterate-address-from-corrupt-index"
 KEY_SWAP = "table-file:record-replaced-valid-crc"
@@ -295,6 +294,34 @@ def regression_cases():
         c = mcase(_r.Random(7), 1, [{"op": "set", "pos": 0, "bytes": [52]}] + extra + [{"op": "set", "pos": 50, "bytes": [90]}], "regression")
         c["reg"] = "manifest-bad-root"
         out.append(c)
+    # fixed:e8df418 — archive chunk references, span offsets and footer counts
+    AC = [[1, 2, 3, 4, 5, 6], [6, 5, 4, 3, 2, 1], [7, 7]]
+    def a(muts, reg):
+        c = acase(AC, muts, "regression", gm=True, extras=True)
+        c["reg"] = reg
+        out.append(c)
+    for i in range(3):
+        for v in (0, 4, 9, 0xFFFFFFFF):
+            a([{"op": "aset", "reg": "refs", "pos": 8 * i + 4, "bytes": be32(v)}], "archive-chunk-ref")
+    a([{"op": "aset", "reg": "refs", "pos": 0, "bytes": be32(1)}], "archive-chunk-ref")
+    a([{"op": "aset", "reg": "refs", "pos": 0, "bytes": be32(7)}], "archive-chunk-ref")
+    a([{"op": "aset", "reg": "spans", "pos": 0, "bytes": be64(0)}], "archive-span-length")
+    a([{"op": "aset", "reg": "spans", "pos": 0, "bytes": be64(256)}], "archive-span-length")
+    a([{"op": "aset", "reg": "spans", "pos": 8, "bytes": be64(1)}], "archive-span-length")
+    a([{"op": "aset", "reg": "spans", "pos": 0, "bytes": [64, 0, 0, 0, 0, 0, 0, 12]}], "archive-span-length")
+    a([{"op": "aset", "reg": "spans", "pos": 16, "bytes": be64(2 ** 40)}], "archive-span-length")
+    for pos, v in ((8, 9), (8, 0xFFFFFFFF), (12, 0x80000000), (12, 2), (12, 4), (8, 2)):
+        a([{"op": "aset", "reg": "footer", "pos": pos, "bytes": be32(v)}], "archive-footer-counts")
+    for v in (0, 1, 2):
+        a([{"op": "aset", "reg": "footer", "pos": 212, "bytes": [v]}], "archive-footer-counts")
+    a([{"op": "aset", "reg": "footer", "pos": 0, "bytes": be64(10 ** 15)}], "archive-footer-counts")
+    a([{"op": "aset", "reg": "footer", "pos": 16, "bytes": be32(0xFFFFFFF0)}], "archive-footer-counts")
+    for i in range(3):
+        c = scase("archive", [[rbytes(__import__("random").Random(5), 9) for _ in range(3)]], "archive",
+                  [{"op": "aset", "reg": "refs", "pos": 8 * i + 4, "bytes": be32(0)}], "regression")
+        c["batches"] = [[[1, 2, 3, 4, 5, 6, 7, 8, 9], [9, 8, 7, 6, 5, 4, 3, 2, 1], [5, 5, 5, 5, 5, 5, 5, 5, 5]]]
+        c["reg"] = "archive-chunk-ref"
+        out.append(c)
     for c in out:
         if c["k"] == "table":
             c["gm"] = True
@@ -374,7 +401,7 @@ def archive_cases(rng, tier):
             A([{"op": "axor", "reg": "suffixes", "pos": rng.randrange(12 * c), "v": rng.choice(FLIPS)}], "a-suffix-flip", extras=quick is False)
         # footer: index length(8) spans(4) chunks(4) meta(4) checksums(192) version(1) signature(7)
         # versions < 3 have a 216-byte footer: every index section is read 4 bytes off (slow: see a-footer-count below)
-        for v in ((4, 255) if quick else (0, 1, 2, 4, 255)):
+        for v in (0, 1, 2, 4, 255):
             A([{"op": "aset", "reg": "footer", "pos": 212, "bytes": [v]}], "a-version")
         A([{"op": "axor", "reg": "footer", "pos": 215, "v": 1}], "a-signature")
         A([{"op": "aset", "reg": "footer", "pos": 12, "bytes": be32(c - 1)}], "a-footer-count")
@@ -385,8 +412,8 @@ def archive_cases(rng, tier):
         A([{"op": "aset", "reg": "footer", "pos": 16, "bytes": be32(0xFFFFFFF0)}], "a-footer-meta")
         for _ in range(3 if quick else 40):
             A([{"op": "axor", "reg": "footer", "pos": rng.choice([7, 11, 15, 19] + list(range(20, 212))), "v": rng.choice(FLIPS)}], "a-footer-flip")
-        if not quick:
-            # counts that shift the index sections: span lengths become garbage (slow: the iteration doubles its buffer until the process dies)
+        if True:
+            # counts that disagree with the index size
             A([{"op": "aset", "reg": "footer", "pos": 8, "bytes": be32(c + 6)}], "a-footer-count", extras=True)
             A([{"op": "aset", "reg": "footer", "pos": 12, "bytes": be32(c + 1)}], "a-footer-count")
         for n in ((1, 7, 8, 220, 221, 300) if quick else range(1, 330, 3)):
@@ -564,10 +591,6 @@ def evidence(case, out):
     return ev
 
 
-ARCHIVE_PANIC_REF = ("expected true", "Reverse Index")
-ARCHIVE_PANIC_LEN = ("makeslice", "out of memory", "slice bounds out of range", "timeout", "cannot allocate")
-
-
 def attribute(case, out, kind, msg):
     """The OPEN known-finding key a piece of evidence belongs to, or None.  Table/journal/manifest panics belong to none."""
     o = out.get("obs") or {}
@@ -581,14 +604,6 @@ def attribute(case, out, kind, msg):
         return None
     if is_archive and kind == "misread":
         return KEY_A_SWAP if msg == "get" else KEY_A_ITER
-    if is_archive and kind in ("panic", "crash"):
-        label = case.get("label") or ""
-        if label.startswith("a-footer") and any(x in msg for x in ARCHIVE_PANIC_LEN + ARCHIVE_PANIC_REF):
-            return KEY_A_CNT
-        if any(x in msg for x in ARCHIVE_PANIC_REF):
-            return KEY_A_REF
-        if any(x in msg for x in ARCHIVE_PANIC_LEN):
-            return KEY_A_LEN
     return None
 
 
